@@ -145,29 +145,39 @@ func (c *TreeCacheClientImpl) ReadCurrentUpdatesHighestPriorities(ctx context.Co
 
 func (c *TreeCacheClientImpl) ReadUpdatesOwner(ctx context.Context, owner string) UpdateSlice {
 
-	ownerPaths := c.getPathsOfOwner(ctx, owner)
-
-	return c.Read(ctx, &cache.Opts{
-		Store: cachepb.Store_INTENDED,
-		Owner: owner,
-	}, ownerPaths.paths.ToStringSlice())
+	// the owner filter of the cache is only honored in combination with an explicit
+	// priority, so read the owners entries grouped by the priority they are stored with.
+	result := UpdateSlice{}
+	for prio, ownerPaths := range c.getPathsOfOwner(ctx, owner) {
+		result = append(result, c.Read(ctx, &cache.Opts{
+			Store:    cachepb.Store_INTENDED,
+			Owner:    owner,
+			Priority: prio,
+		}, ownerPaths.paths.ToStringSlice())...)
+	}
+	return result
 }
 
-func (c *TreeCacheClientImpl) getPathsOfOwner(ctx context.Context, owner string) *PathSet {
+func (c *TreeCacheClientImpl) getPathsOfOwner(ctx context.Context, owner string) map[int32]*PathSet {
 	if c.intendedStoreIndex == nil {
 		c.RefreshCaches(ctx)
 	}
 
-	p := NewPathSet()
+	result := map[int32]*PathSet{}
 	for _, keyMeta := range c.intendedStoreIndex {
 		for _, k := range keyMeta {
 			if k.Owner() == owner {
+				p, exists := result[k.Priority()]
+				if !exists {
+					p = NewPathSet()
+					result[k.Priority()] = p
+				}
 				// if the key is not yet listed in the keys slice, add it otherwise skip
 				p.AddPath(k.GetPath())
 			}
 		}
 	}
-	return p
+	return result
 }
 
 // ReadRunning reads the value from running if the value does not exist, nil is returned
